@@ -6,6 +6,7 @@ CONSTANT MutShareMembers = FALSE
 CONSTANT MutNoRescope = FALSE
 CONSTANT MutStaleProcs = FALSE
 CONSTANT MutRegisterInParent = FALSE
+CONSTANT MutShareNest = FALSE
 CONSTANT MaxDepth = 4
 INVARIANT TypeOK
 INVARIANT CloneFaithful
